@@ -30,23 +30,46 @@ Proof.
   rewrite version_eq. unfold velocity_choice. destruct k; split_cmp; intros; try lia; auto.
 Qed.
 
-Lemma requested_small b : (b < 128)%N -> impl_requested b = spec_requested b.
+(* today's reading of the request byte (int(int8(b))) is Velocity's (readByte), for every byte *)
+Lemma requested_impl_is_spec b : (b < 256)%N -> impl_requested b = spec_requested b.
 Proof.
-  intro H. unfold impl_requested, spec_requested.
+  intro H. unfold impl_requested, spec_requested. rewrite (N.mod_small b 256 H).
+  destruct (N.ltb_spec b 128) as [Hlt|Hge].
+  - assert (E : (128 <=? b)%N = false) by (apply N.leb_gt; exact Hlt). rewrite E. reflexivity.
+  - assert (E : (128 <=? b)%N = true) by (apply N.leb_le; exact Hge). rewrite E. reflexivity.
+Qed.
+
+(* the code as it is now chooses what Velocity chooses, for every request *)
+Theorem choice_impl_is_spec data p k :
+  Forall (fun b => (b < 256)%N) data ->
+  find_version (requested_of_data impl_requested data) p k
+  = velocity_choice (requested_of_data spec_requested data) p k.
+Proof.
+  intro Hwf. rewrite version_eq.
+  destruct data as [|b [|c r]]; try reflexivity.
+  inversion Hwf as [|b' l Hb _]; subst. cbn [requested_of_data].
+  rewrite (requested_impl_is_spec b Hb). reflexivity.
+Qed.
+
+(* ---- facts about the PRE-fix code (prefix_requested, before commit 63b6e75; finding C20-1) ---- *)
+
+Lemma prefix_requested_small b : (b < 128)%N -> prefix_requested b = spec_requested b.
+Proof.
+  intro H. unfold prefix_requested, spec_requested.
   assert (E : (b <? 128)%N = true) by (apply N.ltb_lt; exact H). rewrite E. reflexivity.
 Qed.
 
-(* off the recorded trigger the code chooses what Velocity chooses, for every request *)
-Theorem choice_off_trigger data p k :
+(* off the trigger the pre-fix code chose what Velocity chooses *)
+Theorem prefix_choice_off_trigger data p k :
   Forall (fun b => (b < 256)%N) data ->
   trigger_unsigned data p k = false ->
-  find_version (requested_of_data impl_requested data) p k
+  find_version (requested_of_data prefix_requested data) p k
   = velocity_choice (requested_of_data spec_requested data) p k.
 Proof.
   intros Hwf Ht. rewrite version_eq.
   destruct data as [|b [|c r]]; try reflexivity.
   inversion Hwf as [|b' l Hb _]; subst. cbn [requested_of_data].
-  unfold trigger_unsigned in Ht. unfold impl_requested, spec_requested.
+  unfold trigger_unsigned in Ht. unfold prefix_requested, spec_requested.
   destruct (N.ltb_spec b 128) as [Hlt|Hge]; [reflexivity|].
   assert (E : (128 <=? b)%N = true) by (apply N.leb_le; exact Hge).
   rewrite E in Ht. cbn [andb] in Ht.
@@ -55,11 +78,11 @@ Proof.
   destruct k; try discriminate; split_cmp; try reflexivity; lia.
 Qed.
 
-(* on the trigger they always differ *)
-Theorem choice_on_trigger data p k :
+(* on the trigger they always differed *)
+Theorem prefix_choice_on_trigger data p k :
   Forall (fun b => (b < 256)%N) data ->
   trigger_unsigned data p k = true ->
-  find_version (requested_of_data impl_requested data) p k
+  find_version (requested_of_data prefix_requested data) p k
   <> velocity_choice (requested_of_data spec_requested data) p k.
 Proof.
   intros Hwf Ht. rewrite version_eq.
@@ -67,7 +90,7 @@ Proof.
   inversion Hwf as [|b' l Hb _]; subst. cbn [requested_of_data].
   unfold trigger_unsigned in Ht. apply andb_true_iff in Ht. destruct Ht as [Hb128 Hk].
   apply N.leb_le in Hb128.
-  unfold impl_requested, spec_requested.
+  unfold prefix_requested, spec_requested.
   assert (E : (b <? 128)%N = false) by (apply N.ltb_ge; exact Hb128). rewrite E.
   unfold velocity_choice, p_1_19_3 in *.
   destruct (761 <=? p) eqn:Ep.
@@ -75,10 +98,11 @@ Proof.
   - cbn [orb] in Hk. destruct k; try discriminate; split_cmp; lia.
 Qed.
 
-Theorem unsigned_refuted :
+Theorem prefix_unsigned_refuted :
   trigger_unsigned [128%N] 761 KNone = true /\
-  find_version (requested_of_data impl_requested [128%N]) 761 KNone = 4 /\
-  velocity_choice (requested_of_data spec_requested [128%N]) 761 KNone = 1.
+  find_version (requested_of_data prefix_requested [128%N]) 761 KNone = 4 /\
+  velocity_choice (requested_of_data spec_requested [128%N]) 761 KNone = 1 /\
+  find_version (requested_of_data impl_requested [128%N]) 761 KNone = 1.
 Proof. repeat split; reflexivity. Qed.
 
 (* ---------- the MAC ---------- *)
@@ -137,11 +161,11 @@ Lemma rt_string max v rest : Z.of_N (len v) <= max * 4 -> max * 4 < 2 ^ 31 ->
 Proof. intros H1 H2. apply roundtrip_string. split; lia. Qed.
 
 Lemma rt_bytes max v rest : Z.of_N (len v) <= max -> max < 2 ^ 31 ->
-  read_bytes_len true max (write_bytes v ++ rest) = Ok (v, rest).
+  impl_read_bytes_len max (write_bytes v ++ rest) = Ok (v, rest).
 Proof. intros H1 H2. apply roundtrip_bytes. split; lia. Qed.
 
 Lemma rt_int8 v rest : - Z.of_N (2 ^ 63) <= v < Z.of_N (2 ^ 63) ->
-  read_int true 8 (write_int 8 v ++ rest) = Ok (v, rest).
+  read_int 8 (write_int 8 v ++ rest) = Ok (v, rest).
 Proof. intro H. apply (roundtrip_int 8%nat); [lia|]. exact H. Qed.
 
 (* ---------- forwarding must have been requested ---------- *)
